@@ -103,6 +103,7 @@ type result struct {
 	dirs     []p9p.Dir
 	isDirs   bool
 	n        int
+	nerr     int // the count returned TOGETHER with an error
 	stat     p9p.Dir
 	tab      []ramfs.VerifNode
 	gone     [][3]int64 // tracked nodes no longer reachable from the root: qid path, nref, number of children (-1: no map)
@@ -314,6 +315,9 @@ func (im *impl) do(o op) (res result) {
 		p := make([]byte, o.count)
 		var n int
 		n, res.err = s.Read(ctx, fid, p, int64(o.off))
+		if res.err != nil {
+			res.nerr = n
+		}
 		if res.err == nil {
 			if n < 0 || n > len(p) {
 				panic(fmt.Sprintf("Read returned n=%d for a %d byte buffer", n, len(p)))
@@ -328,6 +332,9 @@ func (im *impl) do(o op) (res result) {
 		}
 	case "write":
 		res.n, res.err = s.Write(ctx, fid, o.data, int64(o.off))
+		if res.err != nil {
+			res.nerr = res.n
+		}
 	case "stat":
 		res.stat, res.err = s.Stat(ctx, fid)
 	case "wstat":
@@ -1243,6 +1250,11 @@ func runSequential(r *rep.Report) {
 			rf.check(o, res, func(key, what string) {
 				fails = append(fails, pend{key, fmt.Sprintf("op %d %s: %s", len(ops)-1, sx.String(o.sexp()), what)})
 			})
+			if res.err != nil && res.nerr != 0 && (o.kind == "read" || o.kind == "write") {
+				// a refused read or write that claims bytes: bytes nobody wrote handed to the reader, or a write
+				// acknowledged in part although the file is unchanged
+				fails = append(fails, pend{"ramfs." + o.kind + ":count-with-error", fmt.Sprintf("op %d %s: failed with %q yet reports %d bytes", len(ops)-1, sx.String(o.sexp()), res.err.Error(), res.nerr)})
+			}
 			if res.panicked {
 				panics++
 				stopped = true
